@@ -302,9 +302,9 @@ def readselection (fixed : Bool) (reads : List Read) (k : Nat) (bridging : Bool)
   if reads.any (fun r => decide (r.pos.length < 2)) then .valueError
   else if !reads.all Read.wf then .misuse
   else
-    let (st1, st2) := phases fixed reads k bridging choices
-    if !st1.undecided.isEmpty || !st2.undecided.isEmpty then .outOfFuel
-    else .ok st2.selected
+    let ph := phases fixed reads k bridging choices
+    if !ph.1.undecided.isEmpty || !ph.2.undecided.isEmpty then .outOfFuel
+    else .ok ph.2.selected
 
 /-! ## the per-family cap of `whatshap phase` (default exact algorithm)
 
